@@ -50,8 +50,8 @@ def configurations(tier):
 def plan(tier, seed):
     if tier == "quick":
         shards = [{"kind": "sweep"}]
-        shards += [{"kind": "txs", "n": 1500} for _ in range(11)]
-        shards += [{"kind": "spendables", "n": 2500} for _ in range(4)]
+        shards += [{"kind": "txs", "n": 3000} for _ in range(11)]
+        shards += [{"kind": "spendables", "n": 5000} for _ in range(4)]
     else:
         shards = [{"kind": "sweep"}]
         shards += [{"kind": "txs", "n": 80000} for _ in range(13)]
